@@ -1,7 +1,8 @@
 import OxiVerif.Lemmas.C01Pred
 /-!
-Helper lemmas for C01: the number of entries produced from an xref stream is bounded by the number
-of data bytes, whatever `/Index`, `/Size` and `/W` declare.
+Helper lemmas for C01, xref streams (`XRefStream::to_xref_entries` after the repair): the number of
+entries produced is bounded by the number of data bytes, whatever `/Index`, `/Size` and `/W` declare,
+and no step panics.
 -/
 namespace OxiVerif.C01
 open Outcome
@@ -21,24 +22,20 @@ theorem xrsInner_bound (data : Bytes) (widths : List Nat) (entrySize first count
       simp only [Outcome.ok.injEq] at h
       subst h; exact ⟨ha, ho⟩
     · rw [if_neg hi] at h
-      rw [bind_eq_ok] at h
-      obtain ⟨endOff, he, h⟩ := h
-      rw [addU_eq_ok] at he
-      by_cases hgt : endOff > data.length
-      · rw [if_pos hgt] at h
-        rw [bind_eq_ok] at h
-        obtain ⟨_, _, h⟩ := h
-        cases h
-      · rw [if_neg hgt] at h
+      by_cases hfit : ¬ (entrySize + off < USIZE ∧ entrySize + off ≤ data.length)
+      · rw [if_pos hfit] at h; cases h
+      · rw [if_neg hfit] at h
+        have hfit' : entrySize + off < USIZE ∧ entrySize + off ≤ data.length := Classical.not_not.mp hfit
         rw [bind_eq_ok] at h
         obtain ⟨fields, _, h⟩ := h
-        rw [bind_eq_ok] at h
-        obtain ⟨obj, _, h⟩ := h
-        by_cases hty : fields.getD 0 0 > 2
-        · rw [if_pos hty] at h; cases h
-        · rw [if_neg hty] at h
-          exact xrsInner_bound data widths entrySize first count hes fuel (i + 1) (off + entrySize) _ r h
-            (by simp; omega) (by omega)
+        by_cases hob : ¬ (first + i < U32)
+        · rw [if_pos hob] at h; cases h
+        · rw [if_neg hob] at h
+          by_cases hty : fields.getD 0 0 > 2
+          · rw [if_pos hty] at h; cases h
+          · rw [if_neg hty] at h
+            exact xrsInner_bound data widths entrySize first count hes fuel (i + 1) (off + entrySize) _ r h
+              (by simp; omega) (by omega)
 
 theorem xrsOuter_bound (data : Bytes) (widths : List Nat) (entrySize : Nat) (hes : 0 < entrySize) :
     ∀ (idx : List (Nat × Nat)) (off : Nat) (acc es : List XEntry),
@@ -52,5 +49,105 @@ theorem xrsOuter_bound (data : Bytes) (widths : List Nat) (entrySize : Nat) (hes
     obtain ⟨⟨off', acc'⟩, h1, h2⟩ := h
     have hb := xrsInner_bound data widths entrySize first count hes _ _ _ _ _ h1 ha ho
     exact xrsOuter_bound data widths entrySize hes rest off' acc' es h2 hb.1 hb.2
+
+/-! ### no panic -/
+
+theorem sumUsizeCk_np : ∀ (ws : List Nat) (acc : Nat), (sumUsizeCk acc ws).isPanic = false
+  | [], acc => rfl
+  | w :: rest, acc => by
+    rw [sumUsizeCk]
+    split
+    · exact sumUsizeCk_np rest _
+    · rfl
+
+theorem sumUsizeCk_ok : ∀ (ws : List Nat) (acc v : Nat), sumUsizeCk acc ws = .ok v → v = acc + ws.sum
+  | [], acc, v, h => by
+    simp only [sumUsizeCk, Outcome.ok.injEq] at h
+    simp [h]
+  | w :: rest, acc, v, h => by
+    rw [sumUsizeCk] at h
+    split at h
+    · have := sumUsizeCk_ok rest _ v h
+      simp [List.sum_cons]; omega
+    · cases h
+
+theorem readFields_np (data : Bytes) : ∀ (ws : List Nat) (off : Nat), off + ws.sum ≤ data.length →
+    (readFields data off ws).isPanic = false
+  | [], off, _ => rfl
+  | w :: rest, off, h => by
+    have hs : off + w + rest.sum ≤ data.length := by simp [List.sum_cons] at h; omega
+    have hrest : ∀ v : Nat, (do
+        let r ← readFields data (off + w) rest
+        pure (v :: r) : Outcome (List Nat)).isPanic = false := by
+      intro v
+      apply not_isPanic_bind
+      · exact readFields_np data rest (off + w) hs
+      · intro r _; rfl
+    rw [readFields]
+    by_cases hw : (w == 0) = true
+    · rw [if_pos hw]; exact hrest 0
+    · rw [if_neg hw]
+      have : slice data off (off + w) = .ok ((data.drop off).take (off + w - off)) := by
+        unfold slice
+        rw [if_pos ⟨by omega, by omega⟩]
+      rw [this]; exact hrest _
+
+theorem xrsInner_np (data : Bytes) (widths : List Nat) (entrySize first count : Nat)
+    (hsum : entrySize = widths.sum) :
+    ∀ (fuel i off : Nat) (acc : List XEntry),
+      (xrsInner data widths entrySize first count fuel i off acc).isPanic = false
+  | 0, i, off, acc => rfl
+  | fuel + 1, i, off, acc => by
+    rw [xrsInner]
+    by_cases hi : i ≥ count
+    · rw [if_pos hi]; rfl
+    · rw [if_neg hi]
+      by_cases hfit : ¬ (entrySize + off < USIZE ∧ entrySize + off ≤ data.length)
+      · rw [if_pos hfit]; rfl
+      · rw [if_neg hfit]
+        have hfit' : entrySize + off < USIZE ∧ entrySize + off ≤ data.length := Classical.not_not.mp hfit
+        apply not_isPanic_bind
+        · exact readFields_np data widths off (by omega)
+        · intro fields _
+          by_cases hob : ¬ (first + i < U32)
+          · rw [if_pos hob]; rfl
+          · rw [if_neg hob]
+            by_cases hty : fields.getD 0 0 > 2
+            · rw [if_pos hty]; rfl
+            · rw [if_neg hty]
+              exact xrsInner_np data widths entrySize first count hsum fuel (i + 1) _ _
+
+theorem xrsOuter_np (data : Bytes) (widths : List Nat) (entrySize : Nat) (hsum : entrySize = widths.sum) :
+    ∀ (idx : List (Nat × Nat)) (off : Nat) (acc : List XEntry),
+      (xrsOuter data widths entrySize idx off acc).isPanic = false
+  | [], off, acc => rfl
+  | (first, count) :: rest, off, acc => by
+    rw [xrsOuter]
+    apply not_isPanic_bind
+    · exact xrsInner_np data widths entrySize first count hsum _ _ _ _
+    · intro p _
+      exact xrsOuter_np data widths entrySize hsum rest _ _
+
+theorem xrsEntries_np (w : List Int) (index : Option (List Int)) (size : Option Int) (data : Bytes) :
+    (xrsEntries w index size data).isPanic = false := by
+  unfold xrsEntries
+  apply not_isPanic_bind
+  · unfold xrsWidths; split <;> rfl
+  · intro widths _
+    apply not_isPanic_bind
+    · unfold xrsIndex
+      cases index with
+      | some xs => rfl
+      | none => cases size <;> rfl
+    · intro idx _
+      apply not_isPanic_bind
+      · exact sumUsizeCk_np widths 0
+      · intro entrySize hes
+        have hsum : entrySize = widths.sum := by
+          have := sumUsizeCk_ok widths 0 entrySize hes
+          omega
+        split
+        · rfl
+        · exact xrsOuter_np data widths entrySize hsum idx 0 []
 
 end OxiVerif.C01
